@@ -32,3 +32,26 @@ REG.fn(M, "_most_fractional", prop="C04", ret="opt[int]",
 REG.fn(M, "_compute_gap", prop="C04", types={"best_obj": "real", "bound": "real"}, ret="real",
        ensures=["result >= 0", "implies(best_obj == bound, result == 0)",
                 "implies(abs(best_obj) >= 0.0000000001, result * abs(best_obj) == abs(best_obj - bound))"])
+
+S = "solvor/simplex.py"
+import specs.search  # noqa: Result record
+REG.fn(S, "_extract", prop="C03", ret="Result[list[real]]",
+       types={"matrix": "list[list[real]]", "basis": "list[int]", "m": "int", "n": "int", "status": "int", "iters": "int",
+              "minimize": "bool", "solution": "list[real]"},
+       requires=["0 <= m", "m + 1 <= len(matrix)", "m <= len(basis)", "n >= 0",
+                 "forall(i, implies(0 <= i < len(matrix), len(matrix[i]) >= 1), trig=matrix[i])",
+                 "forall(i, implies(0 <= i < m, basis[i] >= 0), trig=basis[i])",
+                 # a basis names each variable at most once
+                 "forall(i, j, implies(0 <= i < j and j < m, basis[i] != basis[j]), trig=((basis[i], basis[j]),))"],
+       ensures=[
+           "len(result.solution) == n",
+           # basic variables take the right-hand side of their row, non-basic ones are zero
+           "forall(i, implies(0 <= i < m and basis[i] < n, result.solution[basis[i]] == matrix[i][len(matrix[i]) - 1]), trig=basis[i])",
+           "forall(j, implies(0 <= j < n and forall(i, implies(0 <= i < m, basis[i] != j)), result.solution[j] == 0), trig=result.solution[j])",
+           # the objective cell, with the sign flipped back for maximisation
+           "result.objective == (-matrix[len(matrix) - 1][len(matrix[len(matrix) - 1]) - 1] if minimize else matrix[len(matrix) - 1][len(matrix[len(matrix) - 1]) - 1])",
+           "result.status == status", "result.iterations == iters"],
+       loops={1: LoopSpec(invariants=[
+           "len(solution) == n",
+           "forall(q, implies(0 <= q < i and basis[q] < n, solution[basis[q]] == matrix[q][len(matrix[q]) - 1]), trig=basis[q])",
+           "forall(j, implies(0 <= j < n and forall(q, implies(0 <= q < i, basis[q] != j)), solution[j] == 0), trig=solution[j])"])})
